@@ -519,7 +519,7 @@ func (st *State) runAll() {
 						alts = append(alts, int64(t.id))
 					}
 				}
-				for _, t := range st.armedTimers() {
+				for _, t := range st.preemptTimers() {
 					alts = append(alts, int64(-1-t.id))
 				}
 			}
@@ -559,7 +559,7 @@ func (st *State) runAll() {
 			}
 			// a timer firing while threads could still run counts as one preemption
 			if st.preempts < st.eng.cfg.Preempt || st.eng.cfg.Preempt < 0 {
-				for _, t := range st.armedTimers() {
+				for _, t := range st.preemptTimers() {
 					alts = append(alts, int64(-1-t.id))
 				}
 			}
@@ -576,7 +576,7 @@ func (st *State) runAll() {
 			if curEnabled && next != st.cur {
 				st.preempts++
 			}
-		} else if ts := st.armedTimers(); len(ts) > 0 && (st.preempts < st.eng.cfg.Preempt || st.eng.cfg.Preempt < 0) {
+		} else if ts := st.preemptTimers(); len(ts) > 0 && (st.preempts < st.eng.cfg.Preempt || st.eng.cfg.Preempt < 0) {
 			alts := []int64{int64(next.id)}
 			for _, t := range ts {
 				alts = append(alts, int64(-1-t.id))
